@@ -27,7 +27,10 @@ def window_sessions(rnd, n, thorough):
         for j, sz in enumerate(sizes):
             code, es = rnd.choice([(0xC2, 1), (0xC3, 2), (0xC4, 4), (0xC5, 8), (0xC2, 1)])
             big.append({"name": rnd.choice(["W", "Wnd_Tag_With_A_Longer_Name_", "w"]) + "%d" % j, "code": code, "dims": [max(1, sz // es)]})
-        sc = logix_rw.session(rnd, i, prefix="win", n_calls=0, big=big, policy=pol, n_tags=2)
+        # structure-typed tags larger than the connection (replies carry the 4-byte structure type header)
+        su = rnd.choice(["Inner", "Flat", "STRING", "Outer"])
+        sbig = {"name": "WS", "udt": su, "dims": [max(2, center // {"Inner": 8, "Flat": 40, "STRING": 88, "Outer": 150}[su] + rnd.randint(0, 3))]}
+        sc = logix_rw.session(rnd, i, prefix="win", n_calls=0, big=big + [sbig], policy=pol, n_tags=2)
         calls = [{"api": "open"}]
         for b in big:
             n_el = b["dims"][0]
@@ -40,6 +43,8 @@ def window_sessions(rnd, n, thorough):
                 ob = big[0] if b is not big[0] else big[-1]              # never the same tag: overlapping writes are not generated
                 other = R([(ob["name"], [0])])
                 calls += [S.read_call([rd, other]), S.write_call([wr, dict(other, value=1)]), S.read_call([other, rd])]
+        ws = R([("WS", [])], count=sbig["dims"][0])
+        calls += [S.read_call([ws]), S.read_call([R([("WS", [1])], count=sbig["dims"][0] - 1), R([(big[0]["name"], [0])])])]
         # several mid-sized reads in one call: fills multi-service packets to the brim
         mids = [R([(b["name"], [])], count=max(1, min(b["dims"][0], rnd.choice([S0 // 40, S0 // 8, S0 // 3])))) for b in big for _ in range(3)]
         calls.append(S.read_call(mids))
